@@ -2,6 +2,7 @@ package main
 
 import (
 	"fmt"
+	"github.com/cosmos/cosmos-sdk/x/authz"
 	"math/big"
 	"sort"
 	"strings"
@@ -55,13 +56,15 @@ type monitors struct {
 	regNext   map[bool]uint64
 	// C08: limits before the tx
 	limitBefore map[string]uint64
+	lastBefore  map[string]uint64 // C07: last recorded height / timestamp id per registration
+	purchased   map[string]uint64 // C08: slots bought per registration by the transaction just delivered (as submitted)
 	// C13: entitlement of a single top-level message, evaluated before the tx
 	entitledBefore int // -1 unknown / not applicable, 0 no, 1 yes
 	entitledRole   string
 }
 
 func newMonitors(h *history) *monitors {
-	return &monitors{h: h, recLog: map[string]string{}, terminal: map[uint64]string{}, regStatic: map[string]string{}, regNext: map[bool]uint64{}, limitBefore: map[string]uint64{}, entitledBefore: -1}
+	return &monitors{h: h, recLog: map[string]string{}, terminal: map[uint64]string{}, regStatic: map[string]string{}, regNext: map[bool]uint64{}, limitBefore: map[string]uint64{}, lastBefore: map[string]uint64{}, entitledBefore: -1}
 }
 
 func (m *monitors) fail(prop string, class int, what string) {
@@ -414,7 +417,31 @@ func (m *monitors) afterTx(g genTx, res txResult, cls int, check bool) {
 			m.fail("C05", 0, fmt.Sprintf("a delivered transaction with a top-level WRKChain/BEACON message (fee %snund) left the payer's locked eFUND at %s (was %s): min(fee, locked) = %s was not taken from it", fee, l, m.lockedBefore[payer], want))
 		}
 	}
+	m.purchased = map[string]uint64{}
+	if res.Code == 0 {
+		var walk func(ms []sdk.Msg)
+		walk = func(ms []sdk.Msg) {
+			for _, x := range ms {
+				switch t := x.(type) {
+				case *wrktypes.MsgPurchaseWrkChainStateStorage:
+					m.purchased[fmt.Sprintf("%v|%d", true, t.WrkchainId)] += t.Number
+				case *bcntypes.MsgPurchaseBeaconStateStorage:
+					m.purchased[fmt.Sprintf("%v|%d", false, t.BeaconId)] += t.Number
+				case *authz.MsgExec:
+					if inner, err := t.GetMessages(); err == nil {
+						walk(inner)
+					}
+				}
+			}
+		}
+		var top []sdk.Msg
+		for _, mm := range g.msgs {
+			top = append(top, mm.m)
+		}
+		walk(top)
+	}
 	m.invariants("DeliverTx")
+	m.purchased = nil
 }
 
 func (m *monitors) afterEnd() { m.invariants("EndBlock") }
@@ -925,7 +952,15 @@ func (m *monitors) registryInvariants(where string) {
 			if old, ok := m.limitBefore[key]; ok && limit < old {
 				m.fail("C08", 0, fmt.Sprintf("after %s: limit of %s dropped from %d to %d", where, key, old, limit))
 			}
+			// ... and rises by exactly the slots the delivered transaction bought for it, as submitted (0 everywhere else)
+			if old, ok := m.limitBefore[key]; ok && limit >= old && limit-old != m.purchased[key] {
+				m.fail("C08", 0, fmt.Sprintf("after %s: limit of %s rose from %d to %d; the transaction's purchase messages for it add up to %d slots", where, key, old, limit, m.purchased[key]))
+			}
 			m.limitBefore[key] = limit
+			if old, ok := m.lastBefore[key]; ok && last < old {
+				m.fail("C07", 0, fmt.Sprintf("after %s: the last recorded height / timestamp id of %s went back from %d to %d: a record at or below the last one was accepted", where, key, old, last))
+			}
+			m.lastBefore[key] = last
 		}
 	}
 }
